@@ -13,6 +13,11 @@ def gen_hists(seed, tier):
     hists = [[dict(dev=0, b0=b, new_facade=True)] for b in range(256)]           # all 32 types x 8 qualifiers, fresh device
     for b in range(256):                                                           # re-attach after another type
         hists.append([dict(dev=0, b0=rng.choice([0, 1, 5, 8]), new_facade=True), dict(dev=1, b0=b, new_facade=False)])
+    # whatever ELSE the standard INQUIRY data holds (vendor / product strings that are not text, all ones, high bytes): the type decides
+    for t in (0, 1, 3, 4, 5, 7, 8, 0x0C, 0x1F, 0x20, 0x65):
+        for rest in ("ff", "hi", rng.randrange(1 << 30), rng.randrange(1 << 30)):
+            hists.append([dict(dev=0, b0=t, new_facade=True, rest=rest)])
+            hists.append([dict(dev=0, b0=rng.choice([0, 1, 5, 8]), new_facade=True), dict(dev=1, b0=t, new_facade=False, rest=rest)])
     for _ in range(300 if tier == "quick" else 5000):
         hists.append([dict(dev=rng.randint(0, 2), b0=rng.choice([0, 1, 3, 4, 5, 7, 8, 0x0C, 0x1F, rng.randint(0, 255)]),
                            new_facade=rng.random() < 0.3) for _ in range(rng.randint(2, 6))])
